@@ -201,6 +201,7 @@ def run(ctx):
         out.nontriv(line)
         if len(out.samples) < 4 and ('exists' in outs or 'rejected' in outs):
             out.samples.append({'backend': desc['backend'], 'history': desc['history'][:8], 'impl_outputs': outs[:14]})
+    _large_collections(ctx, out, rng)
     out.rule = ('for each of %d backends/wrappers: histories of 3-%d mutations over uids %r and generated policies (string-'
                 'based, rule-based with context, empty, and ones SQL/Mongo cannot convert because a later field is '
                 'malformed), plus limit/offset/batch edge reads; after EVERY mutation the whole store is read back by get '
@@ -208,6 +209,70 @@ def run(ctx):
                 'the abstract map; evaluations = individual operations; every history is non-trivial (>=3 mutations)'
                 % (len(KINDS), nmut, UIDS))
     return out
+
+
+def _large_collections(ctx, out, rng):
+    """collections larger than any internal page size (the enfolding cache populates in steps of 1000, retrieve_all
+    defaults to 50): full retrieval yields every stored policy exactly once for every batch size, consecutive pages
+    tile, and an enfolding cache created over the filled backend holds everything"""
+    from vakt.policy import Policy
+    from vakt.cache import EnfoldCache
+    from vakt.storage.memory import MemoryStorage
+    kinds = ['memory', 'observable:memory', 'redis-json'] + (['sqlite', 'mongo'] if ctx.tier == 'thorough' else [])
+    for kind in kinds:
+        n = pick(rng, [520, 1040, 1100, 2050])
+        st = stores.make(kind)
+        uids = ['u%05d' % i for i in range(n)]
+        rng.shuffle(uids)
+        for u in uids:
+            st.add(Policy(u, actions=['a'], subjects=['s'], resources=['r'], description=u))
+        targets = [(kind, st)]
+        try:
+            targets.append(('enfold-over-filled:' + kind, EnfoldCache(st, cache=MemoryStorage(), populate=True)))
+        except Exception as e:
+            f = Failure('oracle', {'backend': kind, 'stored': n}, repr(e), None, 'populating an enfolding cache over the '
+                        'filled backend raised', 'Vakt.C08.retrieveAll_all')
+            f.signature = 'large-populate-raised:' + kind
+            out.failures.append(f)
+        for name, s2 in targets:
+            for batch in [1000, 501, 500, n, n + 1, n - 1, 50, 999, 1001, 333]:
+                out.evaluations += 1
+                out.count('large:' + name.split(':')[0])
+                desc = {'backend': name, 'stored': n, 'batch': batch}
+                try:
+                    got = [p.uid for p in capped(s2.retrieve_all(batch), cap=3 * n + 10)]
+                except Exception as e:
+                    got = 'raised %s' % type(e).__name__
+                if got == 'raised Runaway' or (isinstance(got, list) and sorted(got) != sorted(uids)):
+                    miss = sorted(set(uids) - set(got))[:5] if isinstance(got, list) else None
+                    f = Failure('oracle', desc, {'yielded': len(got) if isinstance(got, list) else got, 'missing': miss,
+                                                 'duplicates': len(got) - len(set(got)) if isinstance(got, list) else None},
+                                None, 'retrieve_all(%d) over %d stored policies does not yield every policy exactly once'
+                                % (batch, n), 'Vakt.C08.retrieveAll_all', size=batch)
+                    f.signature = 'large-retrieve:' + name.split(':')[0]
+                    out.failures.append(f)
+                    break
+                elif not isinstance(got, list):
+                    f = Failure('oracle', desc, got, None, 'retrieve_all raised', 'Vakt.C08.retrieveAll_all')
+                    f.signature = 'large-retrieve-raised:' + name.split(':')[0]
+                    out.failures.append(f)
+                    break
+            # consecutive pages tile the collection
+            limit = pick(rng, [499, 500, 501, 1000, 1001, 7])
+            pages, off = [], 0
+            while off < n + limit:
+                pg = [p.uid for p in capped(s2.get_all(limit, off), cap=limit + 5)]
+                pages.extend(pg)
+                off += limit
+                if not pg:
+                    break
+            out.evaluations += 1
+            if sorted(pages) != sorted(uids):
+                f = Failure('oracle', {'backend': name, 'stored': n, 'limit': limit}, {'paged': len(pages)}, None,
+                            'consecutive pages of %d do not tile the collection of %d' % (limit, n), 'Vakt.C08.pages_cover')
+                f.signature = 'large-pages:' + name.split(':')[0]
+                out.failures.append(f)
+        out.nontriv('large %s %d' % (kind, n))
 
 
 def direct_oracle(line, outs):
